@@ -171,3 +171,34 @@ Proof.
     destruct H1 as [Ht1 Hg1]. destruct (IH im1 im' Hg1 (Hnext im1 Es) Hrun) as [Ht2 Hg2].
     split; [now apply (tracks_trans im im1 im')|assumption].
 Qed.
+
+(* ====================================================================================
+   Frame condition: the get_fdata cache is invisible to reorientation and slicing.  Whatever
+   get_fdata / edit / uncache calls are interleaved with the slicer / as_reoriented calls, from
+   whatever cache state, the resulting image is the one the plain sequence gives from the source
+   image alone — and a freshly returned image has no cache. *)
+Theorem cache_frame {V} nifti : forall (xs : list (cop V)) (c c' : cimg V),
+  run_cops nifti c xs = Ok5 c' -> run_ops nifti (c_im c) (ops_of xs) = Ok5 (c_im c').
+Proof.
+  induction xs as [|x xs IH]; intros c c' H.
+  - cbn in H. injection H as <-. reflexivity.
+  - cbn [run_cops] in H. destruct (cstep nifti c x) as [c1|] eqn:E; [|discriminate]. cbn [bind5] in H.
+    destruct x as [conv fill|f| |p]; cbn [cstep] in E.
+    + injection E as <-. cbn [ops_of]. destruct fill; apply (IH _ _ H).
+    + injection E as <-. cbn [ops_of]. now apply (IH _ _ H).
+    + injection E as <-. cbn [ops_of]. now apply (IH _ _ H).
+    + destruct (step_op nifti (c_im c) p) as [im'|] eqn:Es; [|discriminate]. cbn [bind5] in E.
+      injection E as <-. cbn [ops_of run_ops]. rewrite Es. cbn [bind5]. now apply (IH _ _ H).
+Qed.
+
+Corollary cache_independent {V} nifti (xs ys : list (cop V)) (im : img V) k1 k2 c1 c2 :
+  ops_of xs = ops_of ys ->
+  run_cops nifti (mkC im k1) xs = Ok5 c1 -> run_cops nifti (mkC im k2) ys = Ok5 c2 -> c_im c1 = c_im c2.
+Proof.
+  intros Ho H1 H2. apply cache_frame in H1, H2. cbn [c_im] in H1, H2. rewrite Ho in H1. congruence.
+Qed.
+
+Lemma cstep_op_no_cache {V} nifti (c c' : cimg V) p : cstep nifti c (COp p) = Ok5 c' -> c_cache c' = None.
+Proof.
+  cbn [cstep]. destruct (step_op nifti (c_im c) p); [|discriminate]. cbn [bind5]. intros H. now injection H as <-.
+Qed.
